@@ -121,7 +121,7 @@ type caseParams struct {
 func (*prop) Cases(seed int64, tier string) []core.Case {
 	ncases, n := 48, 600
 	if tier == "thorough" {
-		ncases, n = 128, 2500
+		ncases, n = 256, 2500
 	}
 	var cs []core.Case
 	for i := 0; i < ncases; i++ {
@@ -130,7 +130,7 @@ func (*prop) Cases(seed int64, tier string) []core.Case {
 	cs = append(cs, core.MkCase("curated", nil))
 	np, pn := 8, 3
 	if tier == "thorough" {
-		np, pn = 32, 12
+		np, pn = 64, 16
 	}
 	for i := 0; i < np; i++ {
 		cs = append(cs, core.MkCase("pipeline", caseParams{pn}))
